@@ -55,6 +55,7 @@ var exprTokens = []string{
 	"concat", "current", "deref", "true", "string", "count", "p:a", "p:*", "p", ":", "q:a", "foo", "node", "text", "child", "::", "@", "//",
 	"!=", "<", "<=", ">", ">=", "$", "!", "\"s\"", "'s", "1.5", ".5", "1.", "1e5", "\x00", "\xff", "#", "é", "'\xff'", "''", "comment", "self", "ancestor", "xml",
 	"'", "\"", // a lone quote: an unterminated literal, empty when it is the last character
+	"AND", "Div", "oR", "Concat", "Current", // names are case-sensitive: these are ordinary names, not operators or functions
 	"\u00a0", "\f", // white space that is not ExprWhitespace (XPath 1.0 [39] S: #x20 #x9 #xD #xA)
 }
 var exprStructural = []string{"a", "(", ")", "/", "[", "]", "=", "'s'", "1", ",", ".", "..", "*", "-", "div", "and", "concat", "current", "deref", "true", "p:a", "|", "string", "<"}
